@@ -143,3 +143,60 @@ func TestPoly(t *testing.T) {
 		t.Errorf("coef: %s | %s", c, rest)
 	}
 }
+
+const nilPhiSrc = `package t
+func list() ([]string, error)
+func sortIt([]string)
+func use([]string)
+
+// what an inlined helper returning (v, err) leaves behind: two φs at the join, tested by the caller
+func inlinedHelper(gz bool) {
+	var files []string
+	var err error
+	fs, e := list()
+	if e != nil {
+		files, err = nil, e
+	} else {
+		sortIt(fs)
+		files, err = fs, nil
+	}
+	if err != nil {
+		return
+	}
+	use(files)
+}
+
+// the same with the caller's test inverted: the failed path feasibly reaches use() unsorted
+func inverted(gz bool) {
+	var files []string
+	var err error
+	fs, e := list()
+	if e != nil {
+		files, err = nil, e
+	} else {
+		sortIt(fs)
+		files, err = fs, nil
+	}
+	if err == nil {
+		return
+	}
+	use(files)
+}
+`
+
+func TestReachNilPhi(t *testing.T) {
+	pkg := build(t, nilPhiSrc)
+	is := func(name string) func(ssa.Instruction) bool {
+		return func(in ssa.Instruction) bool {
+			c := AsCall(in)
+			return c != nil && CalleeName(c) == name
+		}
+	}
+	for name, wantUnsorted := range map[string]bool{"inlinedHelper": false, "inverted": true} {
+		f := pkg.Func(name)
+		_, got := Reach(Q{From: []At{Entry(f)}, Target: is("t.use"), Blocked: is("t.sortIt")})
+		if got != wantUnsorted {
+			t.Errorf("%s: use() reachable without sortIt() = %v, want %v", name, got, wantUnsorted)
+		}
+	}
+}
